@@ -187,8 +187,7 @@ def mon_c03(c, r):
     return None
 
 
-@each_run
-def mon_c04(c, r):
+def _c04_run(c, r):
     if r.kind != 'call':
         return None
     imm = r.imm()
@@ -218,6 +217,9 @@ def mon_c04(c, r):
         if status == 'R' and (started - ended):
             return 'call returned while functions %s were still in flight' % sorted(started - ended)
     return None
+
+
+mon_c04 = each_run(_c04_run)
 
 
 @each_run
@@ -451,6 +453,9 @@ def mon_c10(c, r):
             cur -= 1
     if mx > lim:
         return '%d user futures in flight with limit %d' % (mx, lim)
+    w = _c04_run(c, r)      # "any limit >= 1 still lets every graph run to completion"
+    if w and 'never return' in w:
+        return 'with limit %d: %s' % (lim, w)
     return None
 
 
@@ -463,6 +468,47 @@ def mon_all_single(c):
         if w:
             return w
     return None
+
+
+def mon_c02_edges(c):
+    """every accepted logic/contains edge is an edge of the graph the runs walked (obs G)"""
+    if 'G' not in c.obs:
+        return None
+    have = set((a, b) for (a, b, _k) in c.G)
+    for e in c.ref.edges:
+        if (e[0], e[1]) not in have:
+            return 'the built graph lacks the accepted %s edge %d -> %d' % ('logic' if e[2] == 'L' else 'contains', e[0], e[1])
+    return None
+
+
+def mon_c02_full(c):
+    return mon_c02_edges(c) or mon_c02(c)
+
+
+def _same_as_fresh(c, p, f, what):
+    a = {t[len(p):]: v for t, v in c.obs.items() if t.startswith(p)}
+    b = {t[len(f):]: v for t, v in c.obs.items() if t.startswith(f)}
+    if not b:
+        return None
+    for t in sorted(set(a) | set(b), key=lambda x: (len(x), x)):
+        if a.get(t) != b.get(t):
+            return '%s differs from the same run on a freshly built graph at %s: %r, fresh: %r' % (what, t, a.get(t), b.get(t))
+    return None
+
+
+def mon_c15(c):
+    """A later run on the reused graph value = the same run on a fresh graph (harness oracle runs f<j>.)"""
+    for j in range(1, len(c.runs)):
+        w = _same_as_fresh(c, 'r%d.' % j, 'f%d.' % j, 'run %d on the reused graph' % j)
+        if w:
+            return w
+    return None
+
+
+def mon_c20(c):
+    """Each of two interleaved runs = the same run alone on its own graph (harness oracle runs fA./fB.)"""
+    return (_same_as_fresh(c, 'A.', 'fA.', 'run A interleaved with run B') or
+            _same_as_fresh(c, 'B.', 'fB.', 'run B interleaved with run A'))
 
 
 def mon_c06_full(c):
